@@ -27,7 +27,24 @@
  *                  | m=<hex> v=<0|1> to=<hex> host=<hex|~> len=<n> hdrs=<k:v,...|->
  *   result:  nomatch | st=<status> | env <k=v,...> rc=<n> | cgi <n> <hex>
  *          | ok reqlen=<n> in=<n> pend=<n> out=<hex>
+ * op "cgibody": mod_cgi's request-body path.  The body arrives by the schedule (numbers / c<n>,
+ *   temp files with flag 512); cgi_write_request() writes it to the script's stdin pipe (or, not
+ *   streaming and the body in one temp file, the temp file itself becomes stdin, as in
+ *   cgi_create_env()); the harness reads the other end.   result: cgibody eof=<0|1> pend=<n> out=<hex>
  * op "parse <parseopts> <flags> <head>" prints only the parsed request.
+ *
+ * ops gfcgi / gscgi / guwsgi / gproxy: same line layout, but the real gw_handle_subrequest()
+ * (gw_backend.c) runs the request: h1_reqbody_read() reads the client's bytes (Content-Length
+ * or chunked framing, spooling to temp files as the real code decides), gw_write_request()
+ * calls create_env and writes to a scripted backend socket, gw_write_refill_wb() hands the
+ * body over.  The backend connection is taken as established (state GW_STATE_PREPARE_WRITE).
+ *   body:  raw client bytes after the head:  - | h<hex> | r<len>.<seed> |
+ *          k<len>.<seed>.<chunkseed>.<rawlen>  (body r<len>.<seed> in chunked framing)
+ *   sched: c<n> = n more client bytes are readable, w<n> = the backend socket accepts n more
+ *          bytes; gw_handle_subrequest() runs after each step; afterwards all remaining client
+ *          bytes are delivered and the socket accepts everything, until nothing moves
+ *   result: g<backend> rc=<handler_t> st=<http status>            (request answered by lighttpd)
+ *         | g<backend> rc=<n> st=0 gs=<gw state> d=<wb_reqlen - wb.bytes_in> pend=<n> rq=<n> out=<hex>
  */
 #include "first.h"
 #include "harness_common.h"
@@ -87,6 +104,8 @@
 #undef plugin_data
 #undef handler_ctx
 
+#include <sys/socket.h>
+
 enum { F_AUTH = 1, F_BREAKPHP = 2, F_FIXROOT = 4, F_CHECKLOCAL = 8, F_HTTPS = 16, F_ERRSAVED = 32,
        F_H2 = 64, F_H2EXT = 128, F_UPGRADE = 256, F_TEMPFILES = 512, F_STREAM = 1024, F_HTTP10 = 2048 };
 
@@ -98,6 +117,9 @@ static log_error_st *errh;
 static char tmproot[512];
 
 static handler_t stub_request_env(request_st *rq) { UNUSED(rq); return HANDLER_GO_ON; }
+/* client socket: nothing more to read right now (client bytes are put into r->read_queue by the schedule) */
+static int stub_network_read(connection *c, chunkqueue *cq, off_t max_bytes) { UNUSED(c); UNUSED(cq); UNUSED(max_bytes); return 0; }
+static handler_t stub_fdevent_handler(void *ctx, int revents) { UNUSED(ctx); UNUSED(revents); return HANDLER_GO_ON; }
 
 static void rm_tmproot(void) {
     DIR *dp = opendir(tmproot);
@@ -376,6 +398,57 @@ static void apply_request_flags(int flags, char **t) {
     }
 }
 
+/* ---- gw_handle_subrequest() driving: scripted backend socket, raw client stream ---- */
+static off_t wcap, wrote_iter;
+static int stub_backend_write(int fd, chunkqueue *cq, off_t max_bytes, log_error_st *eh) {
+    UNUSED(fd);
+    off_t n = chunkqueue_length(cq);
+    if (n > max_bytes) n = max_bytes;
+    if (n > wcap) n = wcap;
+    while (n > 0) {
+        uint32_t k = n > 1048576 ? 1048576 : (uint32_t)n;
+        char *p = buffer_extend(capture, k);
+        if (chunkqueue_read_data(cq, p, k, eh) < 0) { drain_err = 1; return -1; }
+        n -= k; wcap -= k; wrote_iter += k;
+    }
+    chunkqueue_remove_finished_chunks(cq);
+    return 0;
+}
+
+static unsigned char *raw; static size_t raw_len, raw_pos;
+static void make_raw(const char *tok) {
+    free(raw); raw = NULL; raw_len = raw_pos = 0;
+    if (tok[0] != 'k') {
+        make_body(tok);
+        raw = body; raw_len = body_len; body = NULL; body_len = 0;
+        return;
+    }
+    unsigned long len = 0, seed = 0, cseed = 0, rawlen = 0;
+    sscanf(tok + 1, "%lu.%lu.%lu.%lu", &len, &seed, &cseed, &rawlen);
+    char btok[64];
+    snprintf(btok, sizeof(btok), "r%lu.%lu", len, seed);
+    make_body(btok);
+    raw = malloc(len * 25 + 64);     /*(a chunk of >= 1 byte costs <= 20 bytes of framing)*/
+    uint32_t x = (uint32_t)cseed & 0x7fffffffu;
+    const unsigned long M = (cseed % 3 == 0) ? 16 : (cseed % 3 == 1) ? 1000 : 70000;
+    size_t pos = 0, o = 0;
+    while (pos < len) {
+        x = (x * 1103515245u + 12345u) & 0x7fffffffu;
+        unsigned long sz = 1 + (x >> 4) % M;
+        if (sz > len - pos) sz = len - pos;
+        o += (size_t)sprintf((char *)raw + o, "%lx%s\r\n", sz, (x & 3) == 0 ? ";ext=1" : "");
+        memcpy(raw + o, body + pos, sz); o += sz; pos += sz;
+        raw[o++] = '\r'; raw[o++] = '\n';
+    }
+    memcpy(raw + o, "0\r\n\r\n", 5); o += 5;
+    raw_len = o;
+}
+static void raw_deliver(size_t n) {
+    if (n > raw_len - raw_pos) n = raw_len - raw_pos;
+    if (n) chunkqueue_append_mem(&r->read_queue, (char *)raw + raw_pos, n);
+    raw_pos += n;
+}
+
 int main(void) {
     const char *tmp = getenv("TMPDIR");
     if (NULL == tmp || 0 == *tmp) tmp = "/tmp";
@@ -393,13 +466,23 @@ int main(void) {
     srv.errh = errh;
     srv.tmp_buf = buffer_init();
     srv.request_env = stub_request_env;
+    srv.network_backend_write = stub_backend_write;
+    srv.max_fds = 256;
+    srv.ev = fdevent_init("poll", &srv.max_fds, &srv.cur_fds, errh);
+    int sp[2] = { -1, -1 };
+    if (NULL == srv.ev || 0 != socketpair(AF_UNIX, SOCK_STREAM, 0, sp)) { puts("init-failed"); return 1; }
+    static gw_proc the_proc;
+    static buffer proc_name; proc_name.ptr = "backend"; proc_name.used = 8;
+    the_proc.connection_name = &proc_name;
     con.srv = &srv;
     con.fd = -1;
     con.srv_socket = &srv_sock;
     con.reqbody_read = h1_reqbody_read;
+    con.network_read = stub_network_read;
     r->con = &con;
     r->tmp_buf = srv.tmp_buf;
     r->conf.errh = errh;
+    r->conf.max_request_field_size = 8192;
     r->plugin_ctx = plugin_ctx_slots;
     r->dst_addr = &con.dst_addr;
     r->dst_addr_buf = &con.dst_addr_buf;
@@ -426,10 +509,15 @@ int main(void) {
             fputc('\n', stdout);
             continue;
         }
-        const int is_env = 0 == strcmp(op, "env"), is_cgi = 0 == strcmp(op, "cgi"),
+        const int is_gw = (op[0] == 'g');
+        const char * const gop = op;
+        if (is_gw) ++op;
+        const int is_cgibody = 0 == strcmp(op, "cgibody");
+        const int is_env = 0 == strcmp(op, "env"), is_cgi = 0 == strcmp(op, "cgi") || is_cgibody,
                   is_fcgi = 0 == strcmp(op, "fcgi"), is_scgi = 0 == strcmp(op, "scgi"),
                   is_uwsgi = 0 == strcmp(op, "uwsgi"), is_proxy = 0 == strcmp(op, "proxy");
-        if (!(is_env || is_cgi || is_fcgi || is_scgi || is_uwsgi || is_proxy) || ltv_ntok < 19) {
+        if (!(is_env || is_cgi || is_fcgi || is_scgi || is_uwsgi || is_proxy) || ltv_ntok < 19
+            || (is_gw && (is_env || is_cgi))) {
             puts("bad-op"); continue;
         }
         const unsigned int parseopts = (unsigned)atoi(ltv_tok[1]);
@@ -443,6 +531,76 @@ int main(void) {
         buffer *strip = hexbuf(ltv_tok[5]);
         apply_request_flags(flags, ltv_tok + 6);
         setup_ext(key, docroot, strip, flags);
+
+        if (is_cgibody) {
+            cgi_handler_ctx *ch = cgi_handler_ctx_init();
+            ch->r = r; ch->con = &con; ch->ev = srv.ev;
+            int pfd[2] = { -1, -1 };
+            if (0 != pipe(pfd)) { puts("pipe-failed"); cgi_handler_ctx_free(ch); goto done; }
+            fdevent_fcntl_set_nb(pfd[0]); fdevent_fcntl_set_nb(pfd[1]);
+            make_body(ltv_tok[17]);
+            buffer_clear(capture);
+            int eof = 0, wfd_open = 1;
+            char *save = NULL;
+            char *step = strtok_r(ltv_tok[18], ",", &save);
+            if (step && step[0] == 'c') {
+                body_arrive((size_t)atol(step + 1), flags & F_TEMPFILES);
+                r->reqbody_length = r->reqbody_queue.bytes_in;
+                step = strtok_r(NULL, ",", &save);
+            }
+            else if (step) { body_arrive((size_t)atol(step), flags & F_TEMPFILES); step = strtok_r(NULL, ",", &save); }
+            if (!(r->conf.stream_request_body & (FDEVENT_STREAM_REQUEST|FDEVENT_STREAM_REQUEST_BUFMIN))) {
+                /* not streaming: mod_cgi starts the script only after the whole body was received */
+                for (; step; step = strtok_r(NULL, ",", &save)) body_arrive((size_t)atol(step), flags & F_TEMPFILES);
+            }
+            chunkqueue * const cq = &r->reqbody_queue;
+            chunk * const c0 = cq->first;
+            if (0 == r->reqbody_length) {
+                eof = 1;                                    /* stdin is /dev/null */
+            }
+            else if (!(r->conf.stream_request_body & (FDEVENT_STREAM_REQUEST|FDEVENT_STREAM_REQUEST_BUFMIN))
+                     && c0 && c0 == cq->last && c0->type == FILE_CHUNK && c0->file.is_temp) {
+                /* cgi_create_env(): request body in a single temp file: the file is the script's stdin */
+                if (-1 == c0->file.fd && 0 != chunk_open_file_chunk(c0, errh)) fputs("OPEN-ERROR ", stdout);
+                else {
+                    char rb[65536]; ssize_t n; off_t off = 0;
+                    while ((n = pread(c0->file.fd, rb, sizeof(rb), off)) > 0) { buffer_append_string_len(capture, rb, (size_t)n); off += n; }
+                    eof = 1;
+                }
+                chunkqueue_mark_written(cq, chunkqueue_length(cq));
+            }
+            else {
+                for (int i = 0; i < 100000; ++i) {
+                    const int wfd = (-1 != ch->fdtocgi) ? ch->fdtocgi : pfd[1];
+                    if (!wfd_open) break;
+                    if (0 != cgi_write_request(ch, wfd)) { fputs("WRITE-ERROR ", stdout); break; }
+                    if (-1 == ch->fdtocgi && r->reqbody_queue.bytes_out == (off_t)r->reqbody_length) {
+                        /* body fully sent: first call -> the caller closes the pipe; later -> closed via fdevent */
+                        if (0 == i) close(pfd[1]);
+                        else fdevent_poll(srv.ev, 0);
+                        wfd_open = 0;
+                    }
+                    char rb[65536]; ssize_t n;
+                    while ((n = read(pfd[0], rb, sizeof(rb))) > 0) buffer_append_string_len(capture, rb, (size_t)n);
+                    if (0 == n) eof = 1;
+                    if (chunkqueue_is_empty(cq) || !wfd_open) {
+                        if (!step) break;
+                        body_arrive((size_t)atol(step), flags & F_TEMPFILES);
+                        step = strtok_r(NULL, ",", &save);
+                    }
+                }
+                if (wfd_open) {
+                    if (-1 != ch->fdtocgi) { fdevent_fdnode_event_del(srv.ev, ch->fdntocgi); fdevent_unregister(srv.ev, ch->fdntocgi); }
+                    close(pfd[1]);
+                }
+            }
+            close(pfd[0]);
+            printf("cgibody eof=%d pend=%lld out=", eof, (long long)chunkqueue_length(cq));
+            ltv_puthex(capture->ptr, buffer_clen(capture));
+            fputc('\n', stdout);
+            cgi_handler_ctx_free(ch);
+            goto done;
+        }
 
         if (is_cgi) {
             /* mod_cgi: cgi_create_env() environment block */
@@ -517,6 +675,65 @@ int main(void) {
             if (env_first) fputc('-', stdout);
             printf(" rc=%d\n", erc);
             release_hctx(p);
+            goto done;
+        }
+
+        if (is_gw) {
+            make_raw(ltv_tok[17]);
+            buffer_clear(capture);
+            drain_err = 0;
+            r->state = (0 != r->reqbody_length) ? CON_STATE_READ_POST : CON_STATE_HANDLE_REQUEST;
+            con.is_readable = 0;
+            hctx->state = GW_STATE_PREPARE_WRITE;      /*(connection to the backend established)*/
+            hctx->fd = sp[0];
+            hctx->fdn = fdevent_register(srv.ev, hctx->fd, stub_fdevent_handler, hctx);
+            hctx->proc = &the_proc;
+            hctx->revents = 0;
+            wcap = 0;
+            handler_t grc = HANDLER_WAIT_FOR_EVENT;
+            int stop = 0;
+            char *save = NULL;
+            for (char *step = strtok_r(ltv_tok[18], ",", &save); step && !stop; step = strtok_r(NULL, ",", &save)) {
+                if (step[0] == 'c') raw_deliver((size_t)atol(step + 1));
+                else if (step[0] == 'w') {
+                    /* backend socket writable: gw_handle_fdevent() records the event and schedules the request */
+                    wcap = (off_t)atoll(step + 1);
+                    if (fdevent_fdnode_interest(hctx->fdn) & FDEVENT_OUT) hctx->revents |= FDEVENT_OUT;
+                }
+                else continue;
+                grc = gw_handle_subrequest(r, p);
+                if (grc != HANDLER_WAIT_FOR_EVENT && grc != HANDLER_GO_ON) stop = 1;
+            }
+            for (int i = 0; i < 600 && !stop; ++i) {
+                raw_deliver(raw_len);
+                wcap = (off_t)1 << 40;
+                wrote_iter = 0;
+                if (fdevent_fdnode_interest(hctx->fdn) & FDEVENT_OUT) hctx->revents |= FDEVENT_OUT;
+                const off_t rq0 = chunkqueue_length(&r->read_queue), pq0 = chunkqueue_length(&r->reqbody_queue);
+                grc = gw_handle_subrequest(r, p);
+                if (grc != HANDLER_WAIT_FOR_EVENT && grc != HANDLER_GO_ON) break;
+                hctx = r->plugin_ctx[p->id];
+                if (NULL == hctx) break;
+                if (0 == wrote_iter && rq0 == chunkqueue_length(&r->read_queue)
+                    && pq0 == chunkqueue_length(&r->reqbody_queue) && i > 0) break;
+            }
+            hctx = r->plugin_ctx[p->id];
+            if (0 != r->http_status || NULL == hctx)
+                printf("%s rc=%d st=%d\n", gop, (int)grc, r->http_status);
+            else {
+                printf("%s rc=%d st=0 gs=%d d=%lld pend=%lld rq=%lld out=", gop, (int)grc, (int)hctx->state,
+                       (long long)(hctx->wb_reqlen - hctx->wb.bytes_in),
+                       (long long)chunkqueue_length(&r->reqbody_queue), (long long)chunkqueue_length(&r->read_queue));
+                if (drain_err) fputs("DRAIN-ERROR", stdout);
+                ltv_puthex(capture->ptr, buffer_clen(capture));
+                fputc('\n', stdout);
+            }
+            if (hctx) {
+                if (hctx->fdn) { fdevent_fdnode_event_del(srv.ev, hctx->fdn); fdevent_unregister(srv.ev, hctx->fdn); }
+                hctx->fdn = NULL; hctx->fd = -1; hctx->proc = NULL;
+            }
+            release_hctx(p);
+            r->http_status = 0;
             goto done;
         }
 
